@@ -171,6 +171,15 @@ def one(mut, idx, amap, jobs, baseline):
         if not killed and not deriv and "C01" in props:
             stage2 = run_checks(wt, ["C01"], jobs, only_class=mut["cls"])
             killed = [p for p, r in stage2.items() if r.get("exit") == 1]
+        if not killed:
+            # last stage: the model-level derivative / history checks, and the component derivative check (unrestricted) for helpers
+            last = [p for p in ("C02", "C03") if p in props and p not in res and p not in stage2]
+            if "vector_algebra" in mut["file"] or mut["cls"] is None:
+                last = ["C01"] + last
+            if last:
+                r3 = run_checks(wt, last, jobs, only_class=None)
+                stage2.update({k + ("" if k not in stage2 else "_full"): v for k, v in r3.items()})
+                killed = [p for p, r in r3.items() if r.get("exit") == 1]
         incon = [p for p, r in {**res, **stage2}.items() if r.get("exit") == 2]
         return dict(mut, status="killed" if killed else ("inconclusive" if incon else "survived"), killed_by=killed, inconclusive=incon, checks={**res, **stage2})
     except Exception as e:  # noqa: BLE001
